@@ -1,9 +1,26 @@
 import WM.Proto
+import WM.Drv.C01
+import WM.Model.LengthByte
 namespace WM.Drv.C09
 open WM.Proto
 
-/-- Protocol handler of family `c09` (requests arrive without the family token). -/
-def handle : List SExp → String
-  | _ => "bad-op"
+/-- Protocol handler of family `c09`: the length byte (`l2b n`, `b2l b`, `approx n`, `table`) and
+    the search requests of `c01` (`hits`, `rank`, `compile`, …). -/
+def handle (args : List SExp) : String :=
+  match args with
+  | [.atom "l2b", n] =>
+    match n.nat? with
+    | some k => toString (WM.LengthByte.lengthToByte k)
+    | none => "bad-op"
+  | [.atom "b2l", b] =>
+    match b.nat? with
+    | some k => showOpt toString (WM.LengthByte.byteToLength k)
+    | none => "bad-op"
+  | [.atom "approx", n] =>
+    match n.nat? with
+    | some k => toString (WM.LengthByte.approx k)
+    | none => "bad-op"
+  | [.atom "table"] => showNatList WM.LengthByte.table
+  | _ => WM.Drv.C01.handle args
 
 end WM.Drv.C09
